@@ -355,6 +355,61 @@ func (g *gen) lifecycleBFS(w *world, budget int, reqEnc bool, version int) int {
 	return runs
 }
 
+
+// C18: the peer loses its state (the client was restarted; same key, same instance tag), reports our
+// last message unreadable, and the key exchange this triggers brings the message to it once, marked
+func (g *gen) peerRestart(w *world) {
+	w.parties = map[string]*party{}
+	w.dead = false
+	version := 2 + g.r.Intn(2)
+	pol := 2
+	if version == 3 {
+		pol = 4
+	}
+	a := w.newParty(partyCfg{policies: pol | 64, keyIdx: 0, errh: true})
+	b := w.newParty(partyCfg{policies: pol, keyIdx: 1, errh: true})
+	l := &link{w: w, a: a, b: b}
+	l.enqueue(a, []otr3.ValidMessage{w.query(a)})
+	l.settle(40)
+	if !a.c.IsEncrypted() || !b.c.IsEncrypted() || w.dead {
+		return
+	}
+	ts, _ := w.send(a, g.cleanText())
+	l.enqueue(a, ts)
+	l.settle(10)
+	bTag := otr3.VerifSnapshot(b.c).OurTag
+	b2 := w.newParty(partyCfg{policies: pol, keyIdx: 1, errh: true, tag: bTag})
+	l2 := &link{w: w, a: a, b: b2}
+	w.tick(61)
+	text := g.cleanText()
+	ts, _ = w.send(a, text)
+	l2.enqueue(a, ts)
+	l2.settle(10)
+	// (the library itself stays silent about a data message it has no session for; other clients
+	// answer with an error message, which is what a receives here)
+	_, back, _, _ := w.recv(a, []byte("?OTR Error: You sent an encrypted message, but we are not in a private conversation"))
+	l2.enqueue(a, back)
+	l2.settle(60)
+	olog.ok("C18")
+	want := append([]byte("[resent] "), text...)
+	marked, unmarked := 0, 0
+	for _, p := range b2.received {
+		if bytes.Equal(p, want) {
+			marked++
+		}
+		if bytes.Equal(p, text) {
+			unmarked++
+		}
+	}
+	if !a.c.IsEncrypted() || !b2.c.IsEncrypted() {
+		olog.viol("C07", "exchange-does-not-complete", fmt.Sprintf("OTRv%d: after the peer restarted and reported a message unreadable the key exchange did not complete", version))
+		return
+	}
+	if marked != 1 || unmarked != 0 {
+		olog.viol("C18", "unreadable-message-not-resent-once", fmt.Sprintf("OTRv%d: the peer restarted, reported %q unreadable and a new key exchange completed; it was handed the marked text %d times and the unmarked text %d times", version, text, marked, unmarked))
+	}
+}
+
 func init() {
 	profiles["lifecyclebfs"] = func(seed int64, n int, out *emitter, extra map[string]interface{}) map[string]int {
 		g := &gen{r: rand.New(rand.NewSource(seed)), out: out, dist: map[string]int{}}
@@ -403,6 +458,9 @@ func init() {
 		w := newWorld(g)
 		for i := 0; i < n; i++ {
 			g.lifecycleScenario(w, 30+g.r.Intn(50))
+			if i%3 == 0 {
+				g.peerRestart(w)
+			}
 			// plus sampled directed histories of length 4..6
 			for k := 0; k < 3; k++ {
 				seq := make([]int, 4+g.r.Intn(3))
